@@ -1553,8 +1553,15 @@ pub fn gen_rrset(r: &mut Rng, _i: u64) -> String {
     }
     // OPT placement
     let ext = *r.pick(&[0u8, 0, 0, 0, 1, 16, 255, 0x10, 0x20, 0x80, 0xf0, 0x11]);
+    // the OPT pseudo-record is recognised by its TYPE; its owner is the root as a rule, now and then
+    // another name (which the encoder may also write as a compression pointer)
+    let opt_owner = match r.below(6) {
+        0 => qname.clone(),
+        1 => GName { labels: vec![b"x".to_vec()] },
+        _ => GName::root(),
+    };
     let mk_opt = |ext: u8, r: &mut Rng| GRec {
-        owner: GName::root(),
+        owner: opt_owner.clone(),
         rtype: T_OPT,
         rclass: 1232,
         ttl: ((ext as u32) << 24) | (r.below(2) as u32) << 16 | (r.below(2) as u32) << 15,
